@@ -4,7 +4,7 @@ import json, os, random, shutil
 from concurrent.futures import ThreadPoolExecutor
 import kzv, kzscen
 
-INVS = 'TypeOK W_CloseOK W_Partition W_NoPanic W_Mutex W_TokenOrder W_FailureReported W_ClosedRefuses'
+INVS = 'TypeOK W_CloseOK W_Partition W_NoPanic W_Mutex W_TokenOrder W_FailureReported W_ClosedRefuses W_Ownership'
 
 
 def tla_set(xs):
